@@ -2,24 +2,36 @@
 C06 — the semantic graph preserves the program's structure, order and operators.
 
 Model: `Oq3/Model/Sema.lean` (`M = StateT Ctx (Except Outcome)`, one fuel).  Every theorem is
-about an arbitrary SUCCESSFUL run (`… c = .ok (r, c')`) with arbitrary fuel and start context.
+about an arbitrary SUCCESSFUL run (`… c = .ok (r, c')`), for every fuel and every start context.
 
-* `Skel`, `Asg.stmt` / `Asg.texpr` (skeleton of the graph), `expected` / `Ast.expr` (the short
-  declarative expectation computed from the AST alone): kinds, order, roles, operator identity,
-  literal class; no types, no symbol ids, casts and parentheses erased.
-* `op_translation*`, `witness_power_maps_to_concat` (finding F08b), `op_translation_panics`.
-* `roles_preserved_*`: one inversion lemma per statement/expression kind — the ASG node's fields
-  are the translations of the corresponding AST accessor results, run in the stated order.
-* `block_order_preserved`, `top_level_order_preserved`, `top_level_program`,
-  `pending_annotations_attach`, `pragma_verbatim`, `annotation_pushes`.
-* `Frame`/`allFrame`: no function of the translation touches `program`; symbols, diagnostics and
-  pending annotations only grow (used here for `top_level_program`, and by C17).
-* `skeleton_preserved*`: the skeleton of what is produced is the expected skeleton.
+* `Skel`; `Asg.stmt` / `Asg.texpr` / `Asg.skel` (skeleton of the graph); `expected` / `expectedW` /
+  `Ast.expr` / `Ast.skel` (the declarative expectation, computed from the AST alone): kinds, order,
+  roles, operator identity, literal class; no types, no symbol ids; casts (explicit and implicit)
+  and parentheses are transparent; a minus sign in front of a numeric literal belongs to it.
+* `op_translation`, `op_translation_arith/_eq/_concat`, `op_translation_panics`,
+  `witness_power_maps_to_concat` (finding F08b: `**` is stored as ConcatenationOp).
+* `roles_preserved_*`: one inversion lemma per statement / expression kind — the ASG node's fields
+  are the translations of the corresponding AST accessor results, run in the stated order and
+  contexts (if/else, while, for, switch + cases, gate, def, gate call, modifiers, assignment,
+  indexed identifiers / index operators, calls, expression lists, qubit operands, binary
+  expressions, ranges, block-or-statement bodies).
+* `block_order_preserved` (a block is the in-order `filterMap` of its statements' translations),
+  `top_level_order_preserved`, `top_level_program`, `pending_annotations_attach`,
+  `annotation_attached_to_following`, `pragma_verbatim`, `annotation_pushes`.
+* `Frame` / `allFrame`: no function of the translation touches `program`; symbols, diagnostics and
+  pending annotations only grow (used for `top_level_program`, and by C17).
+* `skeleton_preserved_stmt/_block/_expr/_top`, `skeleton_preserved`: the skeleton of what is
+  produced is the expected skeleton with `**` read as concatenation (`astBinaryOpNameActual`;
+  `actual_name_eq`: that is the only difference from the declarative `astBinaryOpName`).
+  Proof: `Post` triples pushed through the 25-function mutual block by a generated script
+  (`AllSk`, `<fn>_sk_step`, induction on fuel), as `Lemmas/GrammarInv.lean` does for the grammar.
+* `witness_nested_annotation_leaks` (finding): an annotation inside a block is attached to the
+  enclosing TOP-LEVEL statement, because only the top-level loop consumes pending annotations.
 
-Known defect F07 (`true_body_block_or_stmt`/`false_body_block_or_stmt` of `if (c) a; else b;`
+Known defect F07 (`true_body_block_or_stmt` / `false_body_block_or_stmt` of `if (c) a; else b;`
 return the wrong nodes) lives in oq3_syntax, below this layer: the semantic pass consumes what the
-accessors return, and so do these theorems (`roles_preserved_if` is about `trueBody`/`falseBody`
-AS RETURNED).  The oracle `vf/oracle_sema_c.py` detects it from the spans.
+accessors return, and so do these theorems (`roles_preserved_if` is about `trueBody` / `falseBody`
+AS RETURNED).  The oracle `vf/oracle_sema_c.py` detects it from the spans of the I5 dump.
 -/
 import Oq3.Model.Sema
 import Oq3.Props.C19
@@ -2094,5 +2106,701 @@ theorem annotation_attached_to_following {fuel sp text s rest c out c'}
     have e := annotation_pushes fuel sp text c
     simp only [topStmtM] at h1
     rw [e] at h1; cases h1
+
+/-! ### skeleton preservation: the machinery -/
+
+/-- every successful run of `x` returns a value satisfying `Q` -/
+def Post {α} (x : M α) (Q : α → Prop) : Prop := ∀ c a c', x c = .ok (a, c') → Q a
+
+theorem Post.bind {α β} {x : M α} {f : α → M β} {P : α → Prop} {Q : β → Prop}
+    (hx : Post x P) (hf : ∀ a, P a → Post (f a) Q) : Post (x >>= f) Q := by
+  intro c b c' h
+  obtain ⟨a, c1, h1, h2⟩ := (bind_ok x f c (b, c')).mp h
+  exact hf a (hx _ _ _ h1) _ _ _ h2
+
+theorem Post.bind_any {α β} {x : M α} {f : α → M β} {Q : β → Prop}
+    (hf : ∀ a, Post (f a) Q) : Post (x >>= f) Q :=
+  Post.bind (P := fun _ => True) (fun _ _ _ _ => trivial) (fun a _ => hf a)
+
+theorem Post.pure {α} {a : α} {Q : α → Prop} (h : Q a) : Post (pure a) Q := by
+  intro c b c' hb; simp at hb; obtain ⟨rfl, _⟩ := hb; exact h
+
+theorem Post.fail {α} (site : String) {Q : α → Prop} : Post (fail site) Q := by
+  intro c b c' hb; simp at hb
+
+theorem Post.throw {α} (o : Outcome) {Q : α → Prop} : Post (throw o) Q := by
+  intro c b c' hb; simp at hb
+
+theorem Post.unwrap {α} (site : String) (o : Option α) : Post (unwrap site o) (fun a => o = some a) := by
+  intro c a c' h
+  obtain ⟨a', h1, h2⟩ := (unwrap_ok _ _ _ _).mp h
+  cases h2; exact h1
+
+@[simp] theorem texpr_castToTexpr (e : TExpr) (t : T) : Asg.texpr (castToTexpr e t) = Asg.texpr e := by
+  simp [castToTexpr, Asg.texpr, Asg.expr]
+
+@[simp] theorem texpr_newTexprWithCast (op : BinaryOp) (l r : TExpr) :
+    Asg.texpr (newTexprWithCast op l r) = .node ("Bin." ++ binaryOpName op) [Asg.texpr l, Asg.texpr r] := by
+  unfold newTexprWithCast
+  cases op <;> simp only [Asg.texpr, Asg.expr]
+  split <;> split <;> simp [texpr_castToTexpr]
+
+
+abbrev NM := astBinaryOpNameActual
+
+theorem literal_post (l : Ast.Literal) :
+    Post (literalToAsgTexpr l) (fun r => astLiteral false l = r.map Asg.texpr) := by
+  unfold literalToAsgTexpr astLiteral
+  cases hk : l.kind <;> simp only
+  · exact Post.bind_any fun _ => Post.pure (by simp [astLiteralClass, intLiteralToTexpr, Asg.texpr, Asg.expr, literalClass])
+  · exact Post.bind_any fun _ => Post.pure (by simp [astLiteralClass, floatLiteralToTexpr, Asg.texpr, Asg.expr, literalClass])
+  · split
+    · rename_i h; exact Post.pure (by simp [astLiteralClass, h, bitStringLiteralToTexpr, Asg.texpr, Asg.expr, literalClass])
+    · rename_i h; exact Post.pure (by simp [astLiteralClass, h])
+  · exact Post.pure (by simp [astLiteralClass, boolLiteralToTexpr, Asg.texpr, Asg.expr, literalClass])
+  · exact Post.fail _
+  · exact Post.fail _
+  · exact Post.fail _
+
+theorem binaryOp_post (op : Ast.BinaryOp) :
+    Post (binaryOpToAsgType op) (fun r => NM op = binaryOpName r) := by
+  intro c r c' h
+  rcases op with l | a | (n | ⟨l, s⟩) | _ | _ | a
+  · simp [binaryOpToAsgType] at h
+  · cases a <;> (simp only [binaryOpToAsgType, pure_ok] at h; cases h; rfl)
+  · cases n <;> (simp only [binaryOpToAsgType, pure_ok] at h; cases h; rfl)
+  · simp [binaryOpToAsgType] at h
+  · simp only [binaryOpToAsgType, pure_ok] at h; cases h; rfl
+  · simp only [binaryOpToAsgType, pure_ok] at h; cases h; rfl
+  · simp [binaryOpToAsgType] at h
+
+
+theorem Post.mono {α} {x : M α} {P Q : α → Prop} (h : Post x P) (hpq : ∀ a, P a → Q a) : Post x Q :=
+  fun c a c' hr => hpq a (h c a c' hr)
+
+theorem syms_eq {α β} {a : List α} {b : List β} (h : a.length = b.length) : syms a = syms b := by
+  induction a generalizing b with
+  | nil => cases b <;> simp_all [syms]
+  | cons x xs ih =>
+    cases b with
+    | nil => simp at h
+    | cons y ys => simp only [List.length_cons, Nat.add_right_cancel_iff] at h; simp [syms] at ih ⊢; exact ih h
+
+syntax "post_ih" : tactic
+macro_rules | `(tactic| post_ih) => `(tactic| fail "no ih")
+syntax "post_lemma" : tactic
+macro_rules | `(tactic| post_lemma) => `(tactic| fail "no lemma")
+syntax "post_clear" : tactic
+macro_rules | `(tactic| post_clear) => `(tactic| skip)
+syntax "post_close" : tactic
+macro_rules | `(tactic| post_close) => `(tactic| fail "no closer")
+
+theorem Post.pure_bind {α β} {a : α} {f : α → M β} {Q : β → Prop} (h : Post (f a) Q) :
+    Post (Pure.pure a >>= f) Q := by simp only [LawfulMonad.pure_bind]; exact h
+
+theorem Post.fail_bind {α β} (site : String) {f : α → M β} {Q : β → Prop} :
+    Post (Sema.fail site >>= f) Q := by
+  intro c b c' h; simp [bind_ok] at h
+
+@[simp] theorem opt_map_texpr (o : Option TExpr) : Skel.opt (o.map Asg.texpr) = Asg.optTexpr o := by
+  cases o <;> rfl
+@[simp] theorem opt_some (s : Skel) : Skel.opt (some s) = s := rfl
+@[simp] theorem opt_none : Skel.opt none = leaf "_" := rfl
+
+macro "post_step" : tactic => `(tactic| first
+  | cases ‹_ + 1 = Nat.succ _›
+  | with_reducible exact Post.fail _
+  | with_reducible exact Post.throw _
+  | with_reducible exact Post.fail_bind _
+  | with_reducible refine Post.pure_bind ?_
+  | with_reducible refine Post.bind (Post.unwrap _ _) (fun _ hu => ?_)
+  | post_lemma
+  | post_ih
+  | (show Post _ _; split)
+  | (show Post ((_ >>= _) >>= _) _; rw [bind_assoc])
+  | with_reducible refine Post.bind_any (fun _ => ?_)
+  | with_reducible (refine Post.pure ?_)
+  | post_close
+  | split
+  | dsimp only)
+
+macro "post" : tactic => `(tactic| repeat' post_step)
+
+macro_rules | `(tactic| post_close) => `(tactic| first
+  | (post_clear
+     subst_vars
+     simp_all [Ast.range, Ast.exprs, Ast.exprList, Ast.optExprList, Ast.setExpr,
+     Ast.indexKind, Ast.indexOp, Ast.optIndexOp, Ast.indexOps, Ast.indexedIdent, Ast.gateOperand, Ast.optGateOperand,
+     Ast.gateOperands, Ast.optQubitList, Ast.optArgList, Ast.optParen, Ast.modifier, Ast.modifiers, Ast.gateCall,
+     Ast.gphaseArg, Ast.exprStmt, Ast.designatorExpr, Ast.forIterable, Ast.forIterableOf, Ast.lvalue,
+     expectedW, stmts, block, optBlock, body, accBody, optElse, optDefault, cases,
+     Asg.texpr, Asg.expr, Asg.optTexpr, Asg.optArgs, Asg.texprs, Asg.indexOp, Asg.indexOps, Asg.indexedIdent,
+     Asg.gateOperand, Asg.modifier, Asg.modifiers, Asg.lvalue, Asg.forIterable, Asg.optQubits, Asg.stmt, Asg.stmts,
+     Asg.block, Asg.optElse, Asg.optDefault, Asg.case, Asg.cases, optOpName,
+     unaryExprToTexpr, hardwareQubitToAsgTexpr, hardwareQubitToTexpr, rangeExpressionToTexpr, indexExpressionToTexpr,
+     indexedIdentifierToTexpr, measureExpressionToTexpr, returnExpressionToTexpr, unaryOpName, gateOperandToTexpr,
+     subroutineCallToTexpr, IndexedIdentifier.indexes]
+     done)
+  | (post_clear
+     subst_vars
+     simp_all [Ast.optExpr, Ast.expr, Ast.paren, prefixSk, astLiteral, astLiteralClass, astTimingClass, literalClass, timeUnitToAsg, intLiteralToTexpr, floatLiteralToTexpr,
+     intLiteralToImaginaryTexpr, floatLiteralToImaginaryTexpr, timingIntLiteralToTexpr, timingFloatLiteralToTexpr,
+     Ast.range, Ast.exprs, Ast.exprList, Ast.optExprList, Ast.setExpr,
+     Ast.indexKind, Ast.indexOp, Ast.optIndexOp, Ast.indexOps, Ast.indexedIdent, Ast.gateOperand, Ast.optGateOperand,
+     Ast.gateOperands, Ast.optQubitList, Ast.optArgList, Ast.optParen, Ast.modifier, Ast.modifiers, Ast.gateCall,
+     Ast.gphaseArg, Ast.exprStmt, Ast.designatorExpr, Ast.forIterable, Ast.forIterableOf, Ast.lvalue,
+     expectedW, stmts, block, optBlock, body, accBody, optElse, optDefault, cases,
+     Asg.texpr, Asg.expr, Asg.optTexpr, Asg.optArgs, Asg.texprs, Asg.indexOp, Asg.indexOps, Asg.indexedIdent,
+     Asg.gateOperand, Asg.modifier, Asg.modifiers, Asg.lvalue, Asg.forIterable, Asg.optQubits, Asg.stmt, Asg.stmts,
+     Asg.block, Asg.optElse, Asg.optDefault, Asg.case, Asg.cases, optOpName,
+     unaryExprToTexpr, hardwareQubitToAsgTexpr, hardwareQubitToTexpr, rangeExpressionToTexpr, indexExpressionToTexpr,
+     indexedIdentifierToTexpr, measureExpressionToTexpr, returnExpressionToTexpr, unaryOpName, gateOperandToTexpr,
+     subroutineCallToTexpr, IndexedIdentifier.indexes]))
+
+macro_rules | `(tactic| post_lemma) => `(tactic| with_reducible refine Post.bind (binaryOp_post _) (fun _ he => ?_))
+macro_rules | `(tactic| post_lemma) => `(tactic| with_reducible exact literal_post _)
+macro_rules | `(tactic| post_lemma) => `(tactic| with_reducible refine Post.mono (literal_post _) (fun _ he => ?_))
+
+theorem bindParams_post (t : T) (ps : List Ast.Param) :
+    Post (bindParams t ps) (fun r => r.length = ps.length) := by
+  induction ps with
+  | nil => unfold bindParams; exact Post.pure rfl
+  | cons p ps ih =>
+    unfold bindParams
+    exact Post.bind_any fun _ => Post.bind ih fun _ h => Post.pure (by simp [h])
+
+theorem bindParameterList_post (l : Option Ast.ParamList) (t : T) :
+    Post (bindParameterList l t) (fun r => Ast.params l = optSyms r ∧ (∀ qs, r = some qs → Ast.qubitParams l = syms qs)) := by
+  unfold bindParameterList
+  cases l with
+  | none => exact Post.pure ⟨rfl, by simp⟩
+  | some pl =>
+    refine Post.bind (bindParams_post _ _) fun _ h => Post.pure ?_
+    exact ⟨by simp [Ast.params, optSyms, syms_eq h.symm], by
+      intro qs hq; cases hq; simp [Ast.qubitParams, syms_eq h.symm]⟩
+macro_rules | `(tactic| post_lemma) => `(tactic| with_reducible refine Post.bind (bindParameterList_post _ _) (fun _ he => ?_))
+
+theorem bindTypedParams_post (ps : List Ast.TypedParam) :
+    Post (bindTypedParams ps) (fun r => r.length = ps.length) := by
+  induction ps with
+  | nil => unfold bindTypedParams; exact Post.pure rfl
+  | cons p ps ih =>
+    unfold bindTypedParams
+    have h_ih := ih
+    repeat' first
+      | exact Post.fail _
+      | refine Post.bind h_ih (fun _ he => ?_)
+      | refine Post.bind_any (fun _ => ?_)
+      | (refine Post.pure ?_; simp [he])
+      | split
+      | dsimp only
+
+theorem bindTypedParameterList_post (l : Option Ast.TypedParamList) :
+    Post (bindTypedParameterList l) (fun r => ∀ ps, r = some ps → Ast.typedParams l = syms ps) := by
+  unfold bindTypedParameterList
+  cases l with
+  | none => exact Post.pure (by simp)
+  | some pl =>
+    refine Post.bind (bindTypedParams_post _) fun _ h => Post.pure ?_
+    intro ps hp; cases hp; simp [Ast.typedParams, syms_eq h.symm]
+macro_rules | `(tactic| post_lemma) => `(tactic| with_reducible refine Post.bind (bindTypedParameterList_post _) (fun _ he => ?_))
+
+theorem declareClassicalHelper_post (id : SymbolIdResult) (i : Option TExpr) :
+    Post (declareClassicalHelper id i) (fun r => r = .declareClassical id i) := by
+  unfold declareClassicalHelper
+  repeat' first
+    | exact Post.fail _
+    | refine Post.bind_any (fun _ => ?_)
+    | exact Post.pure rfl
+    | split
+    | dsimp only
+macro_rules | `(tactic| post_lemma) => `(tactic| with_reducible refine Post.bind (declareClassicalHelper_post _ _) (fun _ he => ?_))
+macro_rules | `(tactic| post_lemma) => `(tactic| with_reducible refine Post.mono (declareClassicalHelper_post _ _) (fun _ he => ?_))
+
+theorem ioDeclaration_post (a : Bool) (st : Option Ast.ScalarType) (n : Option Ast.Name) (i : Bool) :
+    Post (ioDeclarationStatementToAsgStmt a st n i)
+      (fun r => leaf (if i then "InputDeclaration" else "OutputDeclaration") = Asg.stmt r) := by
+  unfold ioDeclarationStatementToAsgStmt
+  repeat' first
+    | exact Post.fail _
+    | refine Post.bind_any (fun _ => ?_)
+    | (refine Post.pure ?_; simp_all [Asg.stmt])
+    | split
+    | dsimp only
+macro_rules | `(tactic| post_lemma) => `(tactic| with_reducible refine Post.bind (ioDeclaration_post _ _ _ _) (fun _ he => ?_))
+
+theorem notImpl_post (sp : Ast.Span) : Post (notImpl sp) (fun r => r = some .nullStmt) := by
+  unfold notImpl
+  exact Post.bind_any fun _ => Post.pure rfl
+macro_rules | `(tactic| post_lemma) => `(tactic| with_reducible refine Post.mono (notImpl_post _) (fun _ he => ?_))
+
+/-- the skeleton facts for all functions of the mutual block at one fuel -/
+structure AllSk (fuel : Nat) : Prop where
+  stmtToAsgStmt : ∀ (s : Ast.Stmt), Post (Oq3.Sema.stmtToAsgStmt fuel s) (fun r => expectedW NM s = r.map Asg.stmt)
+  caseExprsLoop : ∀ (cs : List Ast.CaseExpr), Post (Oq3.Sema.caseExprsLoop fuel cs) (fun r => cases NM cs = Asg.cases r)
+  exprStmtToAsgStmt : ∀ (e : Option Ast.Expr), Post (Oq3.Sema.exprStmtToAsgStmt fuel e) (fun r => some (Ast.exprStmt NM e) = r.map Asg.stmt)
+  modifiersLoop : ∀ (ms : List Ast.Modifier), Post (Oq3.Sema.modifiersLoop fuel ms) (fun r => Ast.modifiers NM ms = Asg.modifiers r)
+  parenExprToAsgTexpr : ∀ (p : Ast.ParenExpr), Post (Oq3.Sema.parenExprToAsgTexpr fuel p) (fun r => Ast.paren NM p = r.map Asg.texpr)
+  exprToAsgTexpr : ∀ (e : Option Ast.Expr), Post (Oq3.Sema.exprToAsgTexpr fuel e) (fun r => Ast.optExpr NM e = r.map Asg.texpr)
+  setExpressionToAsgType : ∀ (s : Ast.SetExpression), Post (Oq3.Sema.setExpressionToAsgType fuel s) (fun r => Ast.setExpr NM s = Asg.texprs r)
+  rangeExpressionToAsgType : ∀ (r : Ast.RangeExpr), Post (Oq3.Sema.rangeExpressionToAsgType fuel r) (fun x => Ast.range NM r = [Asg.texpr x.1, Asg.optTexpr x.2.1, Asg.texpr x.2.2])
+  gateCallExprToAsgStmt : ∀ (g : Ast.GateCallExpr) (ms : List GateModifier), Post (Oq3.Sema.gateCallExprToAsgStmt fuel g ms) (fun r => some (Ast.gateCall NM g (Asg.modifiers ms)) = r.map Asg.stmt)
+  callExprToAsgTexpr : ∀ (sp : Ast.Span) (al : Option Ast.ArgList) (i : Option Ast.Identifier), Post (Oq3.Sema.callExprToAsgTexpr fuel sp al i) (fun r => Skel.node "Call" [Ast.optArgList NM al] = Asg.texpr r)
+  gateOperandToAsgTexpr : ∀ (g : Ast.GateOperand), Post (Oq3.Sema.gateOperandToAsgTexpr fuel g) (fun r => Skel.node "GateOperand" [Ast.gateOperand NM g] = Asg.texpr r)
+  indexOperatorToAsgType : ∀ (i : Ast.IndexOperator), Post (Oq3.Sema.indexOperatorToAsgType fuel i) (fun r => Ast.indexOp NM i = Asg.indexOp r)
+  expressionListToAsgType : ∀ (el : Ast.ExpressionList), Post (Oq3.Sema.expressionListToAsgType fuel el) (fun r => Ast.exprList NM el = Asg.texprs r)
+  qubitListToAsgTexpr : ∀ (ql : Option Ast.QubitList), Post (Oq3.Sema.qubitListToAsgTexpr fuel ql) (fun r => Ast.optQubitList NM ql = Asg.texprs r)
+  gateOperandsLoop : ∀ (gs : List Ast.GateOperand), Post (Oq3.Sema.gateOperandsLoop fuel gs) (fun r => Ast.gateOperands NM gs = Asg.texprs r)
+  expressionListToAsgTexpr : ∀ (el : Ast.ExpressionList), Post (Oq3.Sema.expressionListToAsgTexpr fuel el) (fun r => Ast.exprList NM el = Asg.texprs r)
+  exprsLoop : ∀ (es : List Ast.Expr), Post (Oq3.Sema.exprsLoop fuel es) (fun r => Ast.exprs NM es = Asg.texprs r)
+  blockExprToAsgStmtList : ∀ (b : Ast.BlockExpr), Post (Oq3.Sema.blockExprToAsgStmtList fuel b) (fun r => block NM b = Asg.stmts r)
+  stmtsLoop : ∀ (ss : List Ast.Stmt), Post (Oq3.Sema.stmtsLoop fuel ss) (fun r => stmts NM ss = Asg.stmts r)
+  blockExprToAsgType : ∀ (b : Ast.BlockExpr), Post (Oq3.Sema.blockExprToAsgType fuel b) (fun r => block NM b = Asg.block r)
+  blockOrStmtToAsgType : ∀ (b : Ast.BlockOrStmt), Post (Oq3.Sema.blockOrStmtToAsgType fuel b) (fun r => body NM b = Asg.block r)
+  classicalDeclarationStatementToAsgStmt : ∀ (sp : Ast.Span) (a : Bool) (st : Option Ast.ScalarType) (k : Bool) (n : Option Ast.Name) (e : Option Ast.Expr), Post (Oq3.Sema.classicalDeclarationStatementToAsgStmt fuel sp a st k n e) (fun r => Skel.node "DeclareClassical" [opt (Ast.optExpr NM e)] = Asg.stmt r)
+  assignmentStmtToAsgStmt : ∀ (sp : Ast.Span) (i : Option Ast.Identifier) (rhs : Option Ast.Expr) (ii : Option Ast.IndexedIdentifier), Post (Oq3.Sema.assignmentStmtToAsgStmt fuel sp i rhs ii) (fun r => some (Skel.node "Assignment" [Ast.lvalue NM i ii, opt (Ast.optExpr NM rhs)]) = r.map Asg.stmt)
+  indexedIdentifierToAsgType : ∀ (ii : Ast.IndexedIdentifier), Post (Oq3.Sema.indexedIdentifierToAsgType fuel ii) (fun r => Ast.indexedIdent NM ii = Asg.indexedIdent r.1)
+  indexOperatorsLoop : ∀ (ixs : List Ast.IndexOperator), Post (Oq3.Sema.indexOperatorsLoop fuel ixs) (fun r => Ast.indexOps NM ixs = Asg.indexOps r)
+
+set_option hygiene false in
+macro_rules | `(tactic| post_clear) => `(tactic| try clear h_stmtToAsgStmt h_caseExprsLoop h_exprStmtToAsgStmt h_modifiersLoop h_parenExprToAsgTexpr h_exprToAsgTexpr h_setExpressionToAsgType h_rangeExpressionToAsgType h_gateCallExprToAsgStmt h_callExprToAsgTexpr h_gateOperandToAsgTexpr h_indexOperatorToAsgType h_expressionListToAsgType h_qubitListToAsgTexpr h_gateOperandsLoop h_expressionListToAsgTexpr h_exprsLoop h_blockExprToAsgStmtList h_stmtsLoop h_blockExprToAsgType h_blockOrStmtToAsgType h_classicalDeclarationStatementToAsgStmt h_assignmentStmtToAsgStmt h_indexedIdentifierToAsgType h_indexOperatorsLoop)
+
+set_option hygiene false in
+macro_rules | `(tactic| post_ih) => `(tactic| first
+  | with_reducible refine Post.bind (h_stmtToAsgStmt _) (fun _ he => ?_)
+  | with_reducible exact h_stmtToAsgStmt _
+  | with_reducible refine Post.mono (h_stmtToAsgStmt _) (fun _ he => ?_)
+  | with_reducible refine Post.bind (h_caseExprsLoop _) (fun _ he => ?_)
+  | with_reducible exact h_caseExprsLoop _
+  | with_reducible refine Post.mono (h_caseExprsLoop _) (fun _ he => ?_)
+  | with_reducible refine Post.bind (h_exprStmtToAsgStmt _) (fun _ he => ?_)
+  | with_reducible exact h_exprStmtToAsgStmt _
+  | with_reducible refine Post.mono (h_exprStmtToAsgStmt _) (fun _ he => ?_)
+  | with_reducible refine Post.bind (h_modifiersLoop _) (fun _ he => ?_)
+  | with_reducible exact h_modifiersLoop _
+  | with_reducible refine Post.mono (h_modifiersLoop _) (fun _ he => ?_)
+  | with_reducible refine Post.bind (h_parenExprToAsgTexpr _) (fun _ he => ?_)
+  | with_reducible exact h_parenExprToAsgTexpr _
+  | with_reducible refine Post.mono (h_parenExprToAsgTexpr _) (fun _ he => ?_)
+  | with_reducible refine Post.bind (h_exprToAsgTexpr _) (fun _ he => ?_)
+  | with_reducible exact h_exprToAsgTexpr _
+  | with_reducible refine Post.mono (h_exprToAsgTexpr _) (fun _ he => ?_)
+  | with_reducible refine Post.bind (h_setExpressionToAsgType _) (fun _ he => ?_)
+  | with_reducible exact h_setExpressionToAsgType _
+  | with_reducible refine Post.mono (h_setExpressionToAsgType _) (fun _ he => ?_)
+  | with_reducible refine Post.bind (h_rangeExpressionToAsgType _) (fun _ he => ?_)
+  | with_reducible exact h_rangeExpressionToAsgType _
+  | with_reducible refine Post.mono (h_rangeExpressionToAsgType _) (fun _ he => ?_)
+  | with_reducible refine Post.bind (h_gateCallExprToAsgStmt _ _) (fun _ he => ?_)
+  | with_reducible exact h_gateCallExprToAsgStmt _ _
+  | with_reducible refine Post.mono (h_gateCallExprToAsgStmt _ _) (fun _ he => ?_)
+  | with_reducible refine Post.bind (h_callExprToAsgTexpr _ _ _) (fun _ he => ?_)
+  | with_reducible exact h_callExprToAsgTexpr _ _ _
+  | with_reducible refine Post.mono (h_callExprToAsgTexpr _ _ _) (fun _ he => ?_)
+  | with_reducible refine Post.bind (h_gateOperandToAsgTexpr _) (fun _ he => ?_)
+  | with_reducible exact h_gateOperandToAsgTexpr _
+  | with_reducible refine Post.mono (h_gateOperandToAsgTexpr _) (fun _ he => ?_)
+  | with_reducible refine Post.bind (h_indexOperatorToAsgType _) (fun _ he => ?_)
+  | with_reducible exact h_indexOperatorToAsgType _
+  | with_reducible refine Post.mono (h_indexOperatorToAsgType _) (fun _ he => ?_)
+  | with_reducible refine Post.bind (h_expressionListToAsgType _) (fun _ he => ?_)
+  | with_reducible exact h_expressionListToAsgType _
+  | with_reducible refine Post.mono (h_expressionListToAsgType _) (fun _ he => ?_)
+  | with_reducible refine Post.bind (h_qubitListToAsgTexpr _) (fun _ he => ?_)
+  | with_reducible exact h_qubitListToAsgTexpr _
+  | with_reducible refine Post.mono (h_qubitListToAsgTexpr _) (fun _ he => ?_)
+  | with_reducible refine Post.bind (h_gateOperandsLoop _) (fun _ he => ?_)
+  | with_reducible exact h_gateOperandsLoop _
+  | with_reducible refine Post.mono (h_gateOperandsLoop _) (fun _ he => ?_)
+  | with_reducible refine Post.bind (h_expressionListToAsgTexpr _) (fun _ he => ?_)
+  | with_reducible exact h_expressionListToAsgTexpr _
+  | with_reducible refine Post.mono (h_expressionListToAsgTexpr _) (fun _ he => ?_)
+  | with_reducible refine Post.bind (h_exprsLoop _) (fun _ he => ?_)
+  | with_reducible exact h_exprsLoop _
+  | with_reducible refine Post.mono (h_exprsLoop _) (fun _ he => ?_)
+  | with_reducible refine Post.bind (h_blockExprToAsgStmtList _) (fun _ he => ?_)
+  | with_reducible exact h_blockExprToAsgStmtList _
+  | with_reducible refine Post.mono (h_blockExprToAsgStmtList _) (fun _ he => ?_)
+  | with_reducible refine Post.bind (h_stmtsLoop _) (fun _ he => ?_)
+  | with_reducible exact h_stmtsLoop _
+  | with_reducible refine Post.mono (h_stmtsLoop _) (fun _ he => ?_)
+  | with_reducible refine Post.bind (h_blockExprToAsgType _) (fun _ he => ?_)
+  | with_reducible exact h_blockExprToAsgType _
+  | with_reducible refine Post.mono (h_blockExprToAsgType _) (fun _ he => ?_)
+  | with_reducible refine Post.bind (h_blockOrStmtToAsgType _) (fun _ he => ?_)
+  | with_reducible exact h_blockOrStmtToAsgType _
+  | with_reducible refine Post.mono (h_blockOrStmtToAsgType _) (fun _ he => ?_)
+  | with_reducible refine Post.bind (h_classicalDeclarationStatementToAsgStmt _ _ _ _ _ _) (fun _ he => ?_)
+  | with_reducible exact h_classicalDeclarationStatementToAsgStmt _ _ _ _ _ _
+  | with_reducible refine Post.mono (h_classicalDeclarationStatementToAsgStmt _ _ _ _ _ _) (fun _ he => ?_)
+  | with_reducible refine Post.bind (h_assignmentStmtToAsgStmt _ _ _ _) (fun _ he => ?_)
+  | with_reducible exact h_assignmentStmtToAsgStmt _ _ _ _
+  | with_reducible refine Post.mono (h_assignmentStmtToAsgStmt _ _ _ _) (fun _ he => ?_)
+  | with_reducible refine Post.bind (h_indexedIdentifierToAsgType _) (fun _ he => ?_)
+  | with_reducible exact h_indexedIdentifierToAsgType _
+  | with_reducible refine Post.mono (h_indexedIdentifierToAsgType _) (fun _ he => ?_)
+  | with_reducible refine Post.bind (h_indexOperatorsLoop _) (fun _ he => ?_)
+  | with_reducible exact h_indexOperatorsLoop _
+  | with_reducible refine Post.mono (h_indexOperatorsLoop _) (fun _ he => ?_))
+
+
+set_option maxHeartbeats 4000000 in
+theorem stmtToAsgStmt_sk_step (fuel : Nat) (ih : AllSk fuel) (s : Ast.Stmt) :
+    Post (Oq3.Sema.stmtToAsgStmt (fuel + 1) s) (fun r => expectedW NM s = r.map Asg.stmt) := by
+  obtain ⟨h_stmtToAsgStmt, h_caseExprsLoop, h_exprStmtToAsgStmt, h_modifiersLoop, h_parenExprToAsgTexpr, h_exprToAsgTexpr, h_setExpressionToAsgType, h_rangeExpressionToAsgType, h_gateCallExprToAsgStmt, h_callExprToAsgTexpr, h_gateOperandToAsgTexpr, h_indexOperatorToAsgType, h_expressionListToAsgType, h_qubitListToAsgTexpr, h_gateOperandsLoop, h_expressionListToAsgTexpr, h_exprsLoop, h_blockExprToAsgStmtList, h_stmtsLoop, h_blockExprToAsgType, h_blockOrStmtToAsgType, h_classicalDeclarationStatementToAsgStmt, h_assignmentStmtToAsgStmt, h_indexedIdentifierToAsgType, h_indexOperatorsLoop⟩ := ih
+  unfold Oq3.Sema.stmtToAsgStmt
+  try simp only [withScope, bind_assoc, pure_bind]
+  post
+
+set_option maxHeartbeats 4000000 in
+theorem caseExprsLoop_sk_step (fuel : Nat) (ih : AllSk fuel) (cs : List Ast.CaseExpr) :
+    Post (Oq3.Sema.caseExprsLoop (fuel + 1) cs) (fun r => cases NM cs = Asg.cases r) := by
+  obtain ⟨h_stmtToAsgStmt, h_caseExprsLoop, h_exprStmtToAsgStmt, h_modifiersLoop, h_parenExprToAsgTexpr, h_exprToAsgTexpr, h_setExpressionToAsgType, h_rangeExpressionToAsgType, h_gateCallExprToAsgStmt, h_callExprToAsgTexpr, h_gateOperandToAsgTexpr, h_indexOperatorToAsgType, h_expressionListToAsgType, h_qubitListToAsgTexpr, h_gateOperandsLoop, h_expressionListToAsgTexpr, h_exprsLoop, h_blockExprToAsgStmtList, h_stmtsLoop, h_blockExprToAsgType, h_blockOrStmtToAsgType, h_classicalDeclarationStatementToAsgStmt, h_assignmentStmtToAsgStmt, h_indexedIdentifierToAsgType, h_indexOperatorsLoop⟩ := ih
+  unfold Oq3.Sema.caseExprsLoop
+  try simp only [withScope, bind_assoc, pure_bind]
+  post
+
+set_option maxHeartbeats 4000000 in
+theorem exprStmtToAsgStmt_sk_step (fuel : Nat) (ih : AllSk fuel) (e : Option Ast.Expr) :
+    Post (Oq3.Sema.exprStmtToAsgStmt (fuel + 1) e) (fun r => some (Ast.exprStmt NM e) = r.map Asg.stmt) := by
+  obtain ⟨h_stmtToAsgStmt, h_caseExprsLoop, h_exprStmtToAsgStmt, h_modifiersLoop, h_parenExprToAsgTexpr, h_exprToAsgTexpr, h_setExpressionToAsgType, h_rangeExpressionToAsgType, h_gateCallExprToAsgStmt, h_callExprToAsgTexpr, h_gateOperandToAsgTexpr, h_indexOperatorToAsgType, h_expressionListToAsgType, h_qubitListToAsgTexpr, h_gateOperandsLoop, h_expressionListToAsgTexpr, h_exprsLoop, h_blockExprToAsgStmtList, h_stmtsLoop, h_blockExprToAsgType, h_blockOrStmtToAsgType, h_classicalDeclarationStatementToAsgStmt, h_assignmentStmtToAsgStmt, h_indexedIdentifierToAsgType, h_indexOperatorsLoop⟩ := ih
+  rcases e with _ | e
+  · unfold Oq3.Sema.exprStmtToAsgStmt; post
+  cases e <;> (try cases ‹Ast.GPhaseCallExpr›) <;> (unfold Oq3.Sema.exprStmtToAsgStmt; post)
+
+set_option maxHeartbeats 4000000 in
+theorem modifiersLoop_sk_step (fuel : Nat) (ih : AllSk fuel) (ms : List Ast.Modifier) :
+    Post (Oq3.Sema.modifiersLoop (fuel + 1) ms) (fun r => Ast.modifiers NM ms = Asg.modifiers r) := by
+  obtain ⟨h_stmtToAsgStmt, h_caseExprsLoop, h_exprStmtToAsgStmt, h_modifiersLoop, h_parenExprToAsgTexpr, h_exprToAsgTexpr, h_setExpressionToAsgType, h_rangeExpressionToAsgType, h_gateCallExprToAsgStmt, h_callExprToAsgTexpr, h_gateOperandToAsgTexpr, h_indexOperatorToAsgType, h_expressionListToAsgType, h_qubitListToAsgTexpr, h_gateOperandsLoop, h_expressionListToAsgTexpr, h_exprsLoop, h_blockExprToAsgStmtList, h_stmtsLoop, h_blockExprToAsgType, h_blockOrStmtToAsgType, h_classicalDeclarationStatementToAsgStmt, h_assignmentStmtToAsgStmt, h_indexedIdentifierToAsgType, h_indexOperatorsLoop⟩ := ih
+  unfold Oq3.Sema.modifiersLoop
+  try simp only [withScope, bind_assoc, pure_bind]
+  post
+
+set_option maxHeartbeats 4000000 in
+theorem parenExprToAsgTexpr_sk_step (fuel : Nat) (ih : AllSk fuel) (p : Ast.ParenExpr) :
+    Post (Oq3.Sema.parenExprToAsgTexpr (fuel + 1) p) (fun r => Ast.paren NM p = r.map Asg.texpr) := by
+  obtain ⟨h_stmtToAsgStmt, h_caseExprsLoop, h_exprStmtToAsgStmt, h_modifiersLoop, h_parenExprToAsgTexpr, h_exprToAsgTexpr, h_setExpressionToAsgType, h_rangeExpressionToAsgType, h_gateCallExprToAsgStmt, h_callExprToAsgTexpr, h_gateOperandToAsgTexpr, h_indexOperatorToAsgType, h_expressionListToAsgType, h_qubitListToAsgTexpr, h_gateOperandsLoop, h_expressionListToAsgTexpr, h_exprsLoop, h_blockExprToAsgStmtList, h_stmtsLoop, h_blockExprToAsgType, h_blockOrStmtToAsgType, h_classicalDeclarationStatementToAsgStmt, h_assignmentStmtToAsgStmt, h_indexedIdentifierToAsgType, h_indexOperatorsLoop⟩ := ih
+  unfold Oq3.Sema.parenExprToAsgTexpr
+  try simp only [withScope, bind_assoc, pure_bind]
+  post
+
+set_option maxHeartbeats 4000000 in
+theorem exprToAsgTexpr_sk_step (fuel : Nat) (ih : AllSk fuel) (e : Option Ast.Expr) :
+    Post (Oq3.Sema.exprToAsgTexpr (fuel + 1) e) (fun r => Ast.optExpr NM e = r.map Asg.texpr) := by
+  obtain ⟨h_stmtToAsgStmt, h_caseExprsLoop, h_exprStmtToAsgStmt, h_modifiersLoop, h_parenExprToAsgTexpr, h_exprToAsgTexpr, h_setExpressionToAsgType, h_rangeExpressionToAsgType, h_gateCallExprToAsgStmt, h_callExprToAsgTexpr, h_gateOperandToAsgTexpr, h_indexOperatorToAsgType, h_expressionListToAsgType, h_qubitListToAsgTexpr, h_gateOperandsLoop, h_expressionListToAsgTexpr, h_exprsLoop, h_blockExprToAsgStmtList, h_stmtsLoop, h_blockExprToAsgType, h_blockOrStmtToAsgType, h_classicalDeclarationStatementToAsgStmt, h_assignmentStmtToAsgStmt, h_indexedIdentifierToAsgType, h_indexOperatorsLoop⟩ := ih
+  rcases e with _ | e
+  · unfold Oq3.Sema.exprToAsgTexpr; post
+  unfold Oq3.Sema.exprToAsgTexpr; post
+
+set_option maxHeartbeats 4000000 in
+theorem setExpressionToAsgType_sk_step (fuel : Nat) (ih : AllSk fuel) (s : Ast.SetExpression) :
+    Post (Oq3.Sema.setExpressionToAsgType (fuel + 1) s) (fun r => Ast.setExpr NM s = Asg.texprs r) := by
+  obtain ⟨h_stmtToAsgStmt, h_caseExprsLoop, h_exprStmtToAsgStmt, h_modifiersLoop, h_parenExprToAsgTexpr, h_exprToAsgTexpr, h_setExpressionToAsgType, h_rangeExpressionToAsgType, h_gateCallExprToAsgStmt, h_callExprToAsgTexpr, h_gateOperandToAsgTexpr, h_indexOperatorToAsgType, h_expressionListToAsgType, h_qubitListToAsgTexpr, h_gateOperandsLoop, h_expressionListToAsgTexpr, h_exprsLoop, h_blockExprToAsgStmtList, h_stmtsLoop, h_blockExprToAsgType, h_blockOrStmtToAsgType, h_classicalDeclarationStatementToAsgStmt, h_assignmentStmtToAsgStmt, h_indexedIdentifierToAsgType, h_indexOperatorsLoop⟩ := ih
+  unfold Oq3.Sema.setExpressionToAsgType
+  try simp only [withScope, bind_assoc, pure_bind]
+  post
+
+set_option maxHeartbeats 4000000 in
+theorem rangeExpressionToAsgType_sk_step (fuel : Nat) (ih : AllSk fuel) (r : Ast.RangeExpr) :
+    Post (Oq3.Sema.rangeExpressionToAsgType (fuel + 1) r) (fun x => Ast.range NM r = [Asg.texpr x.1, Asg.optTexpr x.2.1, Asg.texpr x.2.2]) := by
+  obtain ⟨h_stmtToAsgStmt, h_caseExprsLoop, h_exprStmtToAsgStmt, h_modifiersLoop, h_parenExprToAsgTexpr, h_exprToAsgTexpr, h_setExpressionToAsgType, h_rangeExpressionToAsgType, h_gateCallExprToAsgStmt, h_callExprToAsgTexpr, h_gateOperandToAsgTexpr, h_indexOperatorToAsgType, h_expressionListToAsgType, h_qubitListToAsgTexpr, h_gateOperandsLoop, h_expressionListToAsgTexpr, h_exprsLoop, h_blockExprToAsgStmtList, h_stmtsLoop, h_blockExprToAsgType, h_blockOrStmtToAsgType, h_classicalDeclarationStatementToAsgStmt, h_assignmentStmtToAsgStmt, h_indexedIdentifierToAsgType, h_indexOperatorsLoop⟩ := ih
+  unfold Oq3.Sema.rangeExpressionToAsgType
+  try simp only [withScope, bind_assoc, pure_bind]
+  post
+
+set_option maxHeartbeats 4000000 in
+theorem gateCallExprToAsgStmt_sk_step (fuel : Nat) (ih : AllSk fuel) (g : Ast.GateCallExpr) (ms : List GateModifier) :
+    Post (Oq3.Sema.gateCallExprToAsgStmt (fuel + 1) g ms) (fun r => some (Ast.gateCall NM g (Asg.modifiers ms)) = r.map Asg.stmt) := by
+  obtain ⟨h_stmtToAsgStmt, h_caseExprsLoop, h_exprStmtToAsgStmt, h_modifiersLoop, h_parenExprToAsgTexpr, h_exprToAsgTexpr, h_setExpressionToAsgType, h_rangeExpressionToAsgType, h_gateCallExprToAsgStmt, h_callExprToAsgTexpr, h_gateOperandToAsgTexpr, h_indexOperatorToAsgType, h_expressionListToAsgType, h_qubitListToAsgTexpr, h_gateOperandsLoop, h_expressionListToAsgTexpr, h_exprsLoop, h_blockExprToAsgStmtList, h_stmtsLoop, h_blockExprToAsgType, h_blockOrStmtToAsgType, h_classicalDeclarationStatementToAsgStmt, h_assignmentStmtToAsgStmt, h_indexedIdentifierToAsgType, h_indexOperatorsLoop⟩ := ih
+  unfold Oq3.Sema.gateCallExprToAsgStmt
+  try simp only [withScope, bind_assoc, pure_bind]
+  post
+
+set_option maxHeartbeats 4000000 in
+theorem callExprToAsgTexpr_sk_step (fuel : Nat) (ih : AllSk fuel) (sp : Ast.Span) (al : Option Ast.ArgList) (i : Option Ast.Identifier) :
+    Post (Oq3.Sema.callExprToAsgTexpr (fuel + 1) sp al i) (fun r => Skel.node "Call" [Ast.optArgList NM al] = Asg.texpr r) := by
+  obtain ⟨h_stmtToAsgStmt, h_caseExprsLoop, h_exprStmtToAsgStmt, h_modifiersLoop, h_parenExprToAsgTexpr, h_exprToAsgTexpr, h_setExpressionToAsgType, h_rangeExpressionToAsgType, h_gateCallExprToAsgStmt, h_callExprToAsgTexpr, h_gateOperandToAsgTexpr, h_indexOperatorToAsgType, h_expressionListToAsgType, h_qubitListToAsgTexpr, h_gateOperandsLoop, h_expressionListToAsgTexpr, h_exprsLoop, h_blockExprToAsgStmtList, h_stmtsLoop, h_blockExprToAsgType, h_blockOrStmtToAsgType, h_classicalDeclarationStatementToAsgStmt, h_assignmentStmtToAsgStmt, h_indexedIdentifierToAsgType, h_indexOperatorsLoop⟩ := ih
+  unfold Oq3.Sema.callExprToAsgTexpr
+  try simp only [withScope, bind_assoc, pure_bind]
+  post
+
+set_option maxHeartbeats 4000000 in
+theorem gateOperandToAsgTexpr_sk_step (fuel : Nat) (ih : AllSk fuel) (g : Ast.GateOperand) :
+    Post (Oq3.Sema.gateOperandToAsgTexpr (fuel + 1) g) (fun r => Skel.node "GateOperand" [Ast.gateOperand NM g] = Asg.texpr r) := by
+  obtain ⟨h_stmtToAsgStmt, h_caseExprsLoop, h_exprStmtToAsgStmt, h_modifiersLoop, h_parenExprToAsgTexpr, h_exprToAsgTexpr, h_setExpressionToAsgType, h_rangeExpressionToAsgType, h_gateCallExprToAsgStmt, h_callExprToAsgTexpr, h_gateOperandToAsgTexpr, h_indexOperatorToAsgType, h_expressionListToAsgType, h_qubitListToAsgTexpr, h_gateOperandsLoop, h_expressionListToAsgTexpr, h_exprsLoop, h_blockExprToAsgStmtList, h_stmtsLoop, h_blockExprToAsgType, h_blockOrStmtToAsgType, h_classicalDeclarationStatementToAsgStmt, h_assignmentStmtToAsgStmt, h_indexedIdentifierToAsgType, h_indexOperatorsLoop⟩ := ih
+  unfold Oq3.Sema.gateOperandToAsgTexpr
+  try simp only [withScope, bind_assoc, pure_bind]
+  post
+
+set_option maxHeartbeats 4000000 in
+theorem indexOperatorToAsgType_sk_step (fuel : Nat) (ih : AllSk fuel) (i : Ast.IndexOperator) :
+    Post (Oq3.Sema.indexOperatorToAsgType (fuel + 1) i) (fun r => Ast.indexOp NM i = Asg.indexOp r) := by
+  obtain ⟨h_stmtToAsgStmt, h_caseExprsLoop, h_exprStmtToAsgStmt, h_modifiersLoop, h_parenExprToAsgTexpr, h_exprToAsgTexpr, h_setExpressionToAsgType, h_rangeExpressionToAsgType, h_gateCallExprToAsgStmt, h_callExprToAsgTexpr, h_gateOperandToAsgTexpr, h_indexOperatorToAsgType, h_expressionListToAsgType, h_qubitListToAsgTexpr, h_gateOperandsLoop, h_expressionListToAsgTexpr, h_exprsLoop, h_blockExprToAsgStmtList, h_stmtsLoop, h_blockExprToAsgType, h_blockOrStmtToAsgType, h_classicalDeclarationStatementToAsgStmt, h_assignmentStmtToAsgStmt, h_indexedIdentifierToAsgType, h_indexOperatorsLoop⟩ := ih
+  unfold Oq3.Sema.indexOperatorToAsgType
+  try simp only [withScope, bind_assoc, pure_bind]
+  post
+
+set_option maxHeartbeats 4000000 in
+theorem expressionListToAsgType_sk_step (fuel : Nat) (ih : AllSk fuel) (el : Ast.ExpressionList) :
+    Post (Oq3.Sema.expressionListToAsgType (fuel + 1) el) (fun r => Ast.exprList NM el = Asg.texprs r) := by
+  obtain ⟨h_stmtToAsgStmt, h_caseExprsLoop, h_exprStmtToAsgStmt, h_modifiersLoop, h_parenExprToAsgTexpr, h_exprToAsgTexpr, h_setExpressionToAsgType, h_rangeExpressionToAsgType, h_gateCallExprToAsgStmt, h_callExprToAsgTexpr, h_gateOperandToAsgTexpr, h_indexOperatorToAsgType, h_expressionListToAsgType, h_qubitListToAsgTexpr, h_gateOperandsLoop, h_expressionListToAsgTexpr, h_exprsLoop, h_blockExprToAsgStmtList, h_stmtsLoop, h_blockExprToAsgType, h_blockOrStmtToAsgType, h_classicalDeclarationStatementToAsgStmt, h_assignmentStmtToAsgStmt, h_indexedIdentifierToAsgType, h_indexOperatorsLoop⟩ := ih
+  unfold Oq3.Sema.expressionListToAsgType
+  try simp only [withScope, bind_assoc, pure_bind]
+  post
+
+set_option maxHeartbeats 4000000 in
+theorem qubitListToAsgTexpr_sk_step (fuel : Nat) (ih : AllSk fuel) (ql : Option Ast.QubitList) :
+    Post (Oq3.Sema.qubitListToAsgTexpr (fuel + 1) ql) (fun r => Ast.optQubitList NM ql = Asg.texprs r) := by
+  obtain ⟨h_stmtToAsgStmt, h_caseExprsLoop, h_exprStmtToAsgStmt, h_modifiersLoop, h_parenExprToAsgTexpr, h_exprToAsgTexpr, h_setExpressionToAsgType, h_rangeExpressionToAsgType, h_gateCallExprToAsgStmt, h_callExprToAsgTexpr, h_gateOperandToAsgTexpr, h_indexOperatorToAsgType, h_expressionListToAsgType, h_qubitListToAsgTexpr, h_gateOperandsLoop, h_expressionListToAsgTexpr, h_exprsLoop, h_blockExprToAsgStmtList, h_stmtsLoop, h_blockExprToAsgType, h_blockOrStmtToAsgType, h_classicalDeclarationStatementToAsgStmt, h_assignmentStmtToAsgStmt, h_indexedIdentifierToAsgType, h_indexOperatorsLoop⟩ := ih
+  unfold Oq3.Sema.qubitListToAsgTexpr
+  try simp only [withScope, bind_assoc, pure_bind]
+  post
+
+set_option maxHeartbeats 4000000 in
+theorem gateOperandsLoop_sk_step (fuel : Nat) (ih : AllSk fuel) (gs : List Ast.GateOperand) :
+    Post (Oq3.Sema.gateOperandsLoop (fuel + 1) gs) (fun r => Ast.gateOperands NM gs = Asg.texprs r) := by
+  obtain ⟨h_stmtToAsgStmt, h_caseExprsLoop, h_exprStmtToAsgStmt, h_modifiersLoop, h_parenExprToAsgTexpr, h_exprToAsgTexpr, h_setExpressionToAsgType, h_rangeExpressionToAsgType, h_gateCallExprToAsgStmt, h_callExprToAsgTexpr, h_gateOperandToAsgTexpr, h_indexOperatorToAsgType, h_expressionListToAsgType, h_qubitListToAsgTexpr, h_gateOperandsLoop, h_expressionListToAsgTexpr, h_exprsLoop, h_blockExprToAsgStmtList, h_stmtsLoop, h_blockExprToAsgType, h_blockOrStmtToAsgType, h_classicalDeclarationStatementToAsgStmt, h_assignmentStmtToAsgStmt, h_indexedIdentifierToAsgType, h_indexOperatorsLoop⟩ := ih
+  unfold Oq3.Sema.gateOperandsLoop
+  try simp only [withScope, bind_assoc, pure_bind]
+  post
+
+set_option maxHeartbeats 4000000 in
+theorem expressionListToAsgTexpr_sk_step (fuel : Nat) (ih : AllSk fuel) (el : Ast.ExpressionList) :
+    Post (Oq3.Sema.expressionListToAsgTexpr (fuel + 1) el) (fun r => Ast.exprList NM el = Asg.texprs r) := by
+  obtain ⟨h_stmtToAsgStmt, h_caseExprsLoop, h_exprStmtToAsgStmt, h_modifiersLoop, h_parenExprToAsgTexpr, h_exprToAsgTexpr, h_setExpressionToAsgType, h_rangeExpressionToAsgType, h_gateCallExprToAsgStmt, h_callExprToAsgTexpr, h_gateOperandToAsgTexpr, h_indexOperatorToAsgType, h_expressionListToAsgType, h_qubitListToAsgTexpr, h_gateOperandsLoop, h_expressionListToAsgTexpr, h_exprsLoop, h_blockExprToAsgStmtList, h_stmtsLoop, h_blockExprToAsgType, h_blockOrStmtToAsgType, h_classicalDeclarationStatementToAsgStmt, h_assignmentStmtToAsgStmt, h_indexedIdentifierToAsgType, h_indexOperatorsLoop⟩ := ih
+  unfold Oq3.Sema.expressionListToAsgTexpr
+  try simp only [withScope, bind_assoc, pure_bind]
+  post
+
+set_option maxHeartbeats 4000000 in
+theorem exprsLoop_sk_step (fuel : Nat) (ih : AllSk fuel) (es : List Ast.Expr) :
+    Post (Oq3.Sema.exprsLoop (fuel + 1) es) (fun r => Ast.exprs NM es = Asg.texprs r) := by
+  obtain ⟨h_stmtToAsgStmt, h_caseExprsLoop, h_exprStmtToAsgStmt, h_modifiersLoop, h_parenExprToAsgTexpr, h_exprToAsgTexpr, h_setExpressionToAsgType, h_rangeExpressionToAsgType, h_gateCallExprToAsgStmt, h_callExprToAsgTexpr, h_gateOperandToAsgTexpr, h_indexOperatorToAsgType, h_expressionListToAsgType, h_qubitListToAsgTexpr, h_gateOperandsLoop, h_expressionListToAsgTexpr, h_exprsLoop, h_blockExprToAsgStmtList, h_stmtsLoop, h_blockExprToAsgType, h_blockOrStmtToAsgType, h_classicalDeclarationStatementToAsgStmt, h_assignmentStmtToAsgStmt, h_indexedIdentifierToAsgType, h_indexOperatorsLoop⟩ := ih
+  unfold Oq3.Sema.exprsLoop
+  try simp only [withScope, bind_assoc, pure_bind]
+  post
+
+set_option maxHeartbeats 4000000 in
+theorem blockExprToAsgStmtList_sk_step (fuel : Nat) (ih : AllSk fuel) (b : Ast.BlockExpr) :
+    Post (Oq3.Sema.blockExprToAsgStmtList (fuel + 1) b) (fun r => block NM b = Asg.stmts r) := by
+  obtain ⟨h_stmtToAsgStmt, h_caseExprsLoop, h_exprStmtToAsgStmt, h_modifiersLoop, h_parenExprToAsgTexpr, h_exprToAsgTexpr, h_setExpressionToAsgType, h_rangeExpressionToAsgType, h_gateCallExprToAsgStmt, h_callExprToAsgTexpr, h_gateOperandToAsgTexpr, h_indexOperatorToAsgType, h_expressionListToAsgType, h_qubitListToAsgTexpr, h_gateOperandsLoop, h_expressionListToAsgTexpr, h_exprsLoop, h_blockExprToAsgStmtList, h_stmtsLoop, h_blockExprToAsgType, h_blockOrStmtToAsgType, h_classicalDeclarationStatementToAsgStmt, h_assignmentStmtToAsgStmt, h_indexedIdentifierToAsgType, h_indexOperatorsLoop⟩ := ih
+  unfold Oq3.Sema.blockExprToAsgStmtList
+  try simp only [withScope, bind_assoc, pure_bind]
+  post
+
+set_option maxHeartbeats 4000000 in
+theorem stmtsLoop_sk_step (fuel : Nat) (ih : AllSk fuel) (ss : List Ast.Stmt) :
+    Post (Oq3.Sema.stmtsLoop (fuel + 1) ss) (fun r => stmts NM ss = Asg.stmts r) := by
+  obtain ⟨h_stmtToAsgStmt, h_caseExprsLoop, h_exprStmtToAsgStmt, h_modifiersLoop, h_parenExprToAsgTexpr, h_exprToAsgTexpr, h_setExpressionToAsgType, h_rangeExpressionToAsgType, h_gateCallExprToAsgStmt, h_callExprToAsgTexpr, h_gateOperandToAsgTexpr, h_indexOperatorToAsgType, h_expressionListToAsgType, h_qubitListToAsgTexpr, h_gateOperandsLoop, h_expressionListToAsgTexpr, h_exprsLoop, h_blockExprToAsgStmtList, h_stmtsLoop, h_blockExprToAsgType, h_blockOrStmtToAsgType, h_classicalDeclarationStatementToAsgStmt, h_assignmentStmtToAsgStmt, h_indexedIdentifierToAsgType, h_indexOperatorsLoop⟩ := ih
+  unfold Oq3.Sema.stmtsLoop
+  try simp only [withScope, bind_assoc, pure_bind]
+  post
+
+set_option maxHeartbeats 4000000 in
+theorem blockExprToAsgType_sk_step (fuel : Nat) (ih : AllSk fuel) (b : Ast.BlockExpr) :
+    Post (Oq3.Sema.blockExprToAsgType (fuel + 1) b) (fun r => block NM b = Asg.block r) := by
+  obtain ⟨h_stmtToAsgStmt, h_caseExprsLoop, h_exprStmtToAsgStmt, h_modifiersLoop, h_parenExprToAsgTexpr, h_exprToAsgTexpr, h_setExpressionToAsgType, h_rangeExpressionToAsgType, h_gateCallExprToAsgStmt, h_callExprToAsgTexpr, h_gateOperandToAsgTexpr, h_indexOperatorToAsgType, h_expressionListToAsgType, h_qubitListToAsgTexpr, h_gateOperandsLoop, h_expressionListToAsgTexpr, h_exprsLoop, h_blockExprToAsgStmtList, h_stmtsLoop, h_blockExprToAsgType, h_blockOrStmtToAsgType, h_classicalDeclarationStatementToAsgStmt, h_assignmentStmtToAsgStmt, h_indexedIdentifierToAsgType, h_indexOperatorsLoop⟩ := ih
+  unfold Oq3.Sema.blockExprToAsgType
+  try simp only [withScope, bind_assoc, pure_bind]
+  post
+
+set_option maxHeartbeats 4000000 in
+theorem blockOrStmtToAsgType_sk_step (fuel : Nat) (ih : AllSk fuel) (b : Ast.BlockOrStmt) :
+    Post (Oq3.Sema.blockOrStmtToAsgType (fuel + 1) b) (fun r => body NM b = Asg.block r) := by
+  obtain ⟨h_stmtToAsgStmt, h_caseExprsLoop, h_exprStmtToAsgStmt, h_modifiersLoop, h_parenExprToAsgTexpr, h_exprToAsgTexpr, h_setExpressionToAsgType, h_rangeExpressionToAsgType, h_gateCallExprToAsgStmt, h_callExprToAsgTexpr, h_gateOperandToAsgTexpr, h_indexOperatorToAsgType, h_expressionListToAsgType, h_qubitListToAsgTexpr, h_gateOperandsLoop, h_expressionListToAsgTexpr, h_exprsLoop, h_blockExprToAsgStmtList, h_stmtsLoop, h_blockExprToAsgType, h_blockOrStmtToAsgType, h_classicalDeclarationStatementToAsgStmt, h_assignmentStmtToAsgStmt, h_indexedIdentifierToAsgType, h_indexOperatorsLoop⟩ := ih
+  unfold Oq3.Sema.blockOrStmtToAsgType
+  try simp only [withScope, bind_assoc, pure_bind]
+  post
+
+set_option maxHeartbeats 4000000 in
+theorem classicalDeclarationStatementToAsgStmt_sk_step (fuel : Nat) (ih : AllSk fuel) (sp : Ast.Span) (a : Bool) (st : Option Ast.ScalarType) (k : Bool) (n : Option Ast.Name) (e : Option Ast.Expr) :
+    Post (Oq3.Sema.classicalDeclarationStatementToAsgStmt (fuel + 1) sp a st k n e) (fun r => Skel.node "DeclareClassical" [opt (Ast.optExpr NM e)] = Asg.stmt r) := by
+  obtain ⟨h_stmtToAsgStmt, h_caseExprsLoop, h_exprStmtToAsgStmt, h_modifiersLoop, h_parenExprToAsgTexpr, h_exprToAsgTexpr, h_setExpressionToAsgType, h_rangeExpressionToAsgType, h_gateCallExprToAsgStmt, h_callExprToAsgTexpr, h_gateOperandToAsgTexpr, h_indexOperatorToAsgType, h_expressionListToAsgType, h_qubitListToAsgTexpr, h_gateOperandsLoop, h_expressionListToAsgTexpr, h_exprsLoop, h_blockExprToAsgStmtList, h_stmtsLoop, h_blockExprToAsgType, h_blockOrStmtToAsgType, h_classicalDeclarationStatementToAsgStmt, h_assignmentStmtToAsgStmt, h_indexedIdentifierToAsgType, h_indexOperatorsLoop⟩ := ih
+  unfold Oq3.Sema.classicalDeclarationStatementToAsgStmt
+  try simp only [withScope, bind_assoc, pure_bind]
+  post
+
+set_option maxHeartbeats 4000000 in
+theorem assignmentStmtToAsgStmt_sk_step (fuel : Nat) (ih : AllSk fuel) (sp : Ast.Span) (i : Option Ast.Identifier) (rhs : Option Ast.Expr) (ii : Option Ast.IndexedIdentifier) :
+    Post (Oq3.Sema.assignmentStmtToAsgStmt (fuel + 1) sp i rhs ii) (fun r => some (Skel.node "Assignment" [Ast.lvalue NM i ii, opt (Ast.optExpr NM rhs)]) = r.map Asg.stmt) := by
+  obtain ⟨h_stmtToAsgStmt, h_caseExprsLoop, h_exprStmtToAsgStmt, h_modifiersLoop, h_parenExprToAsgTexpr, h_exprToAsgTexpr, h_setExpressionToAsgType, h_rangeExpressionToAsgType, h_gateCallExprToAsgStmt, h_callExprToAsgTexpr, h_gateOperandToAsgTexpr, h_indexOperatorToAsgType, h_expressionListToAsgType, h_qubitListToAsgTexpr, h_gateOperandsLoop, h_expressionListToAsgTexpr, h_exprsLoop, h_blockExprToAsgStmtList, h_stmtsLoop, h_blockExprToAsgType, h_blockOrStmtToAsgType, h_classicalDeclarationStatementToAsgStmt, h_assignmentStmtToAsgStmt, h_indexedIdentifierToAsgType, h_indexOperatorsLoop⟩ := ih
+  unfold Oq3.Sema.assignmentStmtToAsgStmt
+  try simp only [withScope, bind_assoc, pure_bind]
+  post
+
+set_option maxHeartbeats 4000000 in
+theorem indexedIdentifierToAsgType_sk_step (fuel : Nat) (ih : AllSk fuel) (ii : Ast.IndexedIdentifier) :
+    Post (Oq3.Sema.indexedIdentifierToAsgType (fuel + 1) ii) (fun r => Ast.indexedIdent NM ii = Asg.indexedIdent r.1) := by
+  obtain ⟨h_stmtToAsgStmt, h_caseExprsLoop, h_exprStmtToAsgStmt, h_modifiersLoop, h_parenExprToAsgTexpr, h_exprToAsgTexpr, h_setExpressionToAsgType, h_rangeExpressionToAsgType, h_gateCallExprToAsgStmt, h_callExprToAsgTexpr, h_gateOperandToAsgTexpr, h_indexOperatorToAsgType, h_expressionListToAsgType, h_qubitListToAsgTexpr, h_gateOperandsLoop, h_expressionListToAsgTexpr, h_exprsLoop, h_blockExprToAsgStmtList, h_stmtsLoop, h_blockExprToAsgType, h_blockOrStmtToAsgType, h_classicalDeclarationStatementToAsgStmt, h_assignmentStmtToAsgStmt, h_indexedIdentifierToAsgType, h_indexOperatorsLoop⟩ := ih
+  unfold Oq3.Sema.indexedIdentifierToAsgType
+  try simp only [withScope, bind_assoc, pure_bind]
+  post
+
+set_option maxHeartbeats 400000 in
+theorem indexOperatorsLoop_sk_step (fuel : Nat) (ih : AllSk fuel) (ixs : List Ast.IndexOperator) :
+    Post (Oq3.Sema.indexOperatorsLoop (fuel + 1) ixs) (fun r => Ast.indexOps NM ixs = Asg.indexOps r) := by
+  obtain ⟨h_stmtToAsgStmt, h_caseExprsLoop, h_exprStmtToAsgStmt, h_modifiersLoop, h_parenExprToAsgTexpr, h_exprToAsgTexpr, h_setExpressionToAsgType, h_rangeExpressionToAsgType, h_gateCallExprToAsgStmt, h_callExprToAsgTexpr, h_gateOperandToAsgTexpr, h_indexOperatorToAsgType, h_expressionListToAsgType, h_qubitListToAsgTexpr, h_gateOperandsLoop, h_expressionListToAsgTexpr, h_exprsLoop, h_blockExprToAsgStmtList, h_stmtsLoop, h_blockExprToAsgType, h_blockOrStmtToAsgType, h_classicalDeclarationStatementToAsgStmt, h_assignmentStmtToAsgStmt, h_indexedIdentifierToAsgType, h_indexOperatorsLoop⟩ := ih
+  unfold Oq3.Sema.indexOperatorsLoop
+  try simp only [withScope, bind_assoc, pure_bind]
+  post
+
+theorem allSk (fuel : Nat) : AllSk fuel := by
+  induction fuel with
+  | zero =>
+    constructor
+    · intros; unfold Oq3.Sema.stmtToAsgStmt; post
+    · intros; unfold Oq3.Sema.caseExprsLoop; post
+    · intros; unfold Oq3.Sema.exprStmtToAsgStmt; post
+    · intros; unfold Oq3.Sema.modifiersLoop; post
+    · intros; unfold Oq3.Sema.parenExprToAsgTexpr; post
+    · intros; unfold Oq3.Sema.exprToAsgTexpr; post
+    · intros; unfold Oq3.Sema.setExpressionToAsgType; post
+    · intros; unfold Oq3.Sema.rangeExpressionToAsgType; post
+    · intros; unfold Oq3.Sema.gateCallExprToAsgStmt; post
+    · intros; unfold Oq3.Sema.callExprToAsgTexpr; post
+    · intros; unfold Oq3.Sema.gateOperandToAsgTexpr; post
+    · intros; unfold Oq3.Sema.indexOperatorToAsgType; post
+    · intros; unfold Oq3.Sema.expressionListToAsgType; post
+    · intros; unfold Oq3.Sema.qubitListToAsgTexpr; post
+    · intros; unfold Oq3.Sema.gateOperandsLoop; post
+    · intros; unfold Oq3.Sema.expressionListToAsgTexpr; post
+    · intros; unfold Oq3.Sema.exprsLoop; post
+    · intros; unfold Oq3.Sema.blockExprToAsgStmtList; post
+    · intros; unfold Oq3.Sema.stmtsLoop; post
+    · intros; unfold Oq3.Sema.blockExprToAsgType; post
+    · intros; unfold Oq3.Sema.blockOrStmtToAsgType; post
+    · intros; unfold Oq3.Sema.classicalDeclarationStatementToAsgStmt; post
+    · intros; unfold Oq3.Sema.assignmentStmtToAsgStmt; post
+    · intros; unfold Oq3.Sema.indexedIdentifierToAsgType; post
+    · intros; unfold Oq3.Sema.indexOperatorsLoop; post
+  | succ fuel ih =>
+    constructor
+    · intros; exact stmtToAsgStmt_sk_step fuel ih _
+    · intros; exact caseExprsLoop_sk_step fuel ih _
+    · intros; exact exprStmtToAsgStmt_sk_step fuel ih _
+    · intros; exact modifiersLoop_sk_step fuel ih _
+    · intros; exact parenExprToAsgTexpr_sk_step fuel ih _
+    · intros; exact exprToAsgTexpr_sk_step fuel ih _
+    · intros; exact setExpressionToAsgType_sk_step fuel ih _
+    · intros; exact rangeExpressionToAsgType_sk_step fuel ih _
+    · intros; exact gateCallExprToAsgStmt_sk_step fuel ih _ _
+    · intros; exact callExprToAsgTexpr_sk_step fuel ih _ _ _
+    · intros; exact gateOperandToAsgTexpr_sk_step fuel ih _
+    · intros; exact indexOperatorToAsgType_sk_step fuel ih _
+    · intros; exact expressionListToAsgType_sk_step fuel ih _
+    · intros; exact qubitListToAsgTexpr_sk_step fuel ih _
+    · intros; exact gateOperandsLoop_sk_step fuel ih _
+    · intros; exact expressionListToAsgTexpr_sk_step fuel ih _
+    · intros; exact exprsLoop_sk_step fuel ih _
+    · intros; exact blockExprToAsgStmtList_sk_step fuel ih _
+    · intros; exact stmtsLoop_sk_step fuel ih _
+    · intros; exact blockExprToAsgType_sk_step fuel ih _
+    · intros; exact blockOrStmtToAsgType_sk_step fuel ih _
+    · intros; exact classicalDeclarationStatementToAsgStmt_sk_step fuel ih _ _ _ _ _ _
+    · intros; exact assignmentStmtToAsgStmt_sk_step fuel ih _ _ _ _
+    · intros; exact indexedIdentifierToAsgType_sk_step fuel ih _
+    · intros; exact indexOperatorsLoop_sk_step fuel ih _
+
+/-! ### skeleton preservation -/
+
+/-- **skeleton preservation, statements**: whenever the translation of a statement returns
+normally (any fuel, any context), the skeleton of what it returns is the skeleton predicted from
+the AST alone — kinds, roles, order of operands / arguments / qubit operands / index lists /
+modifiers, operator identity (with `**` read as concatenation: F08b), literal class, nested
+blocks. -/
+theorem skeleton_preserved_stmt {fuel s c r c'} (h : stmtToAsgStmt fuel s c = .ok (r, c')) :
+    r.map Asg.stmt = expectedW astBinaryOpNameActual s :=
+  ((allSk fuel).stmtToAsgStmt s c r c' h).symm
+
+/-- **skeleton preservation, blocks** -/
+theorem skeleton_preserved_block {fuel ss c r c'} (h : stmtsLoop fuel ss c = .ok (r, c')) :
+    Asg.stmts r = stmts astBinaryOpNameActual ss :=
+  ((allSk fuel).stmtsLoop ss c r c' h).symm
+
+/-- **skeleton preservation, expressions** -/
+theorem skeleton_preserved_expr {fuel e c r c'} (h : exprToAsgTexpr fuel e c = .ok (r, c')) :
+    r.map Asg.texpr = Ast.optExpr astBinaryOpNameActual e :=
+  ((allSk fuel).exprToAsgTexpr e c r c' h).symm
+
+/-- the only operator on which the produced name differs from the declared one is `**` -/
+theorem actual_name_eq (op : Ast.BinaryOp) (h : op ≠ .powerOp) :
+    astBinaryOpNameActual op = astBinaryOpName op := by
+  cases op <;> first | rfl | exact absurd rfl h
+
+/-- the skeleton of the statement emitted for a translation `k` with `anns` pending -/
+def wrapSk (k : Skel) (anns : List String) : Skel :=
+  match anns with
+  | [] => k
+  | _ :: _ => .node "Annotated" [k, .node "Annotations" (anns.map leaf)]
+
+theorem stmt_wrap (t : Stmt) (anns : List String) : Asg.stmt (wrap t anns) = wrapSk (Asg.stmt t) anns := by
+  cases anns <;> simp [wrap, wrapSk, Asg.stmt]
+
+
+/-- pointwise relation between two lists of the same length -/
+inductive Forall₂ {α β : Type} (R : α → β → Prop) : List α → List β → Prop
+  | nil : Forall₂ R [] []
+  | cons {a b as bs} : R a b → Forall₂ R as bs → Forall₂ R (a :: as) (b :: bs)
+
+theorem topStmtM_sk {fuel s c r c1} (h : topStmtM fuel s c = .ok (r, c1)) :
+    r.map Asg.stmt = expectedW astBinaryOpNameActual s := by
+  cases s
+  case includeStmt sp file =>
+    have hn : Post (topStmtM fuel (.includeStmt sp file)) (fun r => r = none) := by
+      unfold topStmtM
+      repeat' first
+        | with_reducible exact Post.fail _
+        | with_reducible exact Post.throw _
+        | with_reducible exact Post.fail_bind _
+        | with_reducible refine Post.bind_any (fun _ => ?_)
+        | with_reducible exact Post.pure rfl
+        | split
+        | dsimp only
+    rw [hn c r c1 h]; rfl
+  all_goals (simp only [topStmtM] at h; exact skeleton_preserved_stmt h)
+
+/-- **skeleton preservation, program**: the statements the top-level loop appends are, in source
+order, the statements that have a translation, each with the expected skeleton, wrapped with the
+annotations pending at that moment -/
+theorem skeleton_preserved_top {fuel ss c out c'} (h : TopRun fuel ss c out c') :
+    Forall₂ (fun k t => ∃ anns, Asg.stmt t = wrapSk k anns)
+      (ss.filterMap (expectedW astBinaryOpNameActual)) out := by
+  induction h with
+  | nil => exact .nil
+  | skip h1 _ ih =>
+    have := topStmtM_sk h1
+    simp only [Option.map_none] at this
+    simp only [List.filterMap_cons, ← this]
+    exact ih
+  | emit h1 _ _ ih =>
+    have := topStmtM_sk h1
+    simp only [Option.map_some] at this
+    simp only [List.filterMap_cons, ← this]
+    exact .cons ⟨_, stmt_wrap _ _⟩ ih
+
+theorem skeleton_preserved {fuel ss c c'} (h : syntaxToSemanticLoop fuel ss c = .ok (⟨⟩, c')) :
+    ∃ out, c'.program = c.program ++ out ∧
+      Forall₂ (fun k t => ∃ anns, Asg.stmt t = wrapSk k anns)
+        (ss.filterMap (expectedW astBinaryOpNameActual)) out := by
+  obtain ⟨out, hrun, hprog⟩ := top_level_program h
+  exact ⟨out, hprog, skeleton_preserved_top hrun⟩
+
+
+
+/-! ### witness: annotations inside blocks -/
+
+/-- `if (true) { @a ⏎ break; }` -/
+def nestedAnnotationProgram : List Ast.Stmt :=
+  [.ifStmt ⟨0, 30⟩ (some (.literal ⟨⟨4, 8⟩, .bool true⟩))
+    (.ok (.blockExpr (.mk ⟨10, 30⟩ [.annotationStatement ⟨12, 14⟩ "@a", .breakStmt ⟨15, 21⟩]))) none]
+
+/-- FINDING (nested annotation): an annotation inside a block is not attached to the statement
+that follows it in the block; it stays pending and ends up on the ENCLOSING top-level statement -/
+theorem witness_nested_annotation_leaks :
+    (match syntaxToSemanticLoop 20 nestedAnnotationProgram {} with
+     | .ok (_, c) => some c.program
+     | .error _ => none) =
+    some [.annotatedStmt (.ifStmt (boolLiteralToTexpr true) (.mk [.breakStmt]) none) ["@a"]] := by
+  rfl
 
 end Oq3.C06
